@@ -55,37 +55,41 @@ theorem iter_spin_is_harmless (s : IW.Script) (t : Nat) (c : IW.Cfg) (h : IW.Spi
     (∀ u, u ≠ t → (IW.step s t c).th u = c.th u) ∧ IW.Spinning (IW.step s t c) t :=
   IW.spin_step_harmless s t c h
 
-/-- **Every call returns under every fair interleaving (wrapper; programs of single, one-shot chunk and buffered
-pulls and `skip_to_end`, any number of each per thread — looping adaptors excluded: `_partial`).** For every wrapped
-iterator — finite or not, fused or not, panicking or not — and every schedule that keeps scheduling each of the `T`
-threads, after finitely many steps no thread has work left. Also when other threads stop pulling, reach the end or
-call `skip_to_end`: those are just programs. Proof: a potential that every non-waiting step decreases and every
-spin iteration preserves (`IW.prog_cost_lt`, `IW.spin_cost_eq`), deadlock freedom, and the generic lemma
-`Orx.Fair.fair_termination`.
-Missing for the full statement: `for_each`/`fold`/`values` re-issue their request until they see the end; their
-termination additionally needs a finite wrapped iterator, and the potential must charge the re-issue to the element
-that justifies it. Deadlock freedom (`iter_deadlock_free`) does cover them. -/
-theorem iter_fair_termination_partial (s : IW.Script) (T B : Nat) (hB : B < W) (ps : Nat → List IW.Req)
-    (hok : ∀ t, ∀ r ∈ ps t, IW.ReqOk r) (hnl : ∀ t, ∀ r ∈ ps t, r.isLoop = false) (hout : ∀ t, T ≤ t → ps t = [])
-    (hbud : ((List.range T).map fun t => IW.lenSum (ps t)).sum ≤ B)
+/-- **Every call returns under every fair interleaving (wrapper over an arbitrary iterator).** For every wrapped
+iterator that eventually stops yielding (call `L` is the first that returns `None` or panics; it may be non-fused),
+every family of per-thread programs over `T` threads — single pulls, one-shot chunks, buffered chunks,
+`skip_to_end`, and the looping adaptors `for_each`/`fold`/`values`/`ids_and_values` with chunk sizes `1 ≤ n ≤ M` —
+and every schedule that keeps scheduling each of the `T` threads: after finitely many steps no thread has work left.
+Also when other threads stop pulling, reach the end, panic inside the wrapped iterator or call `skip_to_end`: those are
+just programs and scripts. (An iterator that never ends makes `for_each` run forever by definition; that is the only
+reason for the hypothesis `FirstNone s L`.) Proof: a potential that every non-waiting step decreases and every spin
+iteration preserves (`IW.prog_cost_lt`, `IW.ins_cost_le`, `IW.spin_cost_eq`), deadlock freedom, and the generic lemma
+`Orx.Fair.fair_termination`. -/
+theorem iter_fair_termination (s : IW.Script) (T M L B : Nat) (hL : IW.FirstNone s L) (hB : B < W) (ps : Nat → List IW.Req)
+    (hok : ∀ t, ∀ r ∈ ps t, IW.ReqOk r) (hml : ∀ t, ∀ r ∈ ps t, r.len ≤ M) (hout : ∀ t, T ≤ t → ps t = [])
+    (hbud : ((List.range T).map fun t => IW.lenSum (ps t)).sum + M * (L + 1) ≤ B)
     (σ : Nat → Nat) (hfair : ∀ t, t < T → ∀ k, ∃ d, σ (k + d) = t) :
-    ∃ d, ∀ t, t < T → ¬ IW.Busy (Orx.Fair.seg (IW.sys s T B hB) σ 0 d (IW.init ps)) t :=
-  IW.fair_termination s T B hB ps hok hnl hout hbud σ hfair
+    ∃ d, ∀ t, t < T → ¬ IW.Busy (Orx.Fair.seg (IW.sys s T M L B hL hB) σ 0 d (IW.init ps)) t :=
+  IW.fair_termination s T M L B hL hB ps hok hml hout hbud σ hfair
 
--- the hypotheses are satisfiable: 3 threads, mixed requests, a skip
+-- the hypotheses are satisfiable: 3 threads, loops and plain pulls, a skip, a 4-element iterator
 def exPs : Nat → List IW.Req
-  | 0 => [.single false, .chunk 3]
-  | 1 => [.buffered 2 false, .single false, .skip]
+  | 0 => [.single true, .chunk 3]
+  | 1 => [.buffered 2 true, .single false, .skip]
   | 2 => [.chunk 1]
   | _ => []
-example : (∀ t, ∀ r ∈ exPs t, r.isLoop = false) ∧ (∀ t, 3 ≤ t → exPs t = []) ∧
-    ((List.range 3).map fun t => IW.lenSum (exPs t)).sum ≤ 100 := by
+def exScript : IW.Script := fun i => if i < 4 then .some (i + 10) else .none
+example : IW.FirstNone exScript 4 := by
+  refine ⟨by simp [exScript, IW.IsSome], ?_⟩
+  intro i hi; simp [exScript, hi, IW.IsSome]
+example : (∀ t, ∀ r ∈ exPs t, r.len ≤ 3) ∧ (∀ t, 3 ≤ t → exPs t = []) ∧
+    ((List.range 3).map fun t => IW.lenSum (exPs t)).sum + 3 * (4 + 1) ≤ 100 := by
   refine ⟨?_, ?_, by decide⟩
   · intro t r hr
     match t with
-    | 0 => simp [exPs] at hr; rcases hr with rfl | rfl <;> rfl
-    | 1 => simp [exPs] at hr; rcases hr with rfl | rfl | rfl <;> rfl
-    | 2 => simp [exPs] at hr; subst hr; rfl
+    | 0 => simp [exPs] at hr; rcases hr with rfl | rfl <;> simp [IW.Req.len]
+    | 1 => simp [exPs] at hr; rcases hr with rfl | rfl | rfl <;> simp [IW.Req.len]
+    | 2 => simp [exPs] at hr; subst hr; simp [IW.Req.len]
     | _ + 3 => simp [exPs] at hr
   · intro t ht
     match t with
